@@ -29,8 +29,10 @@ ASSUMPTIONS = [
     "transform = 6 coefficients in affine.Affine/rasterio order (a,b,c,d,e,f): x' = a*x + b*y + c, y' = d*x + e*y + f "
     "(the docstring only says 'affine transform', shape (6,)); passed as a float64 array; coefficients are dyadic so "
     "the expected vertices are exact in float64",
-    "values are small integers (0,1,2), also as float64: the float comparison of polygonize is an isclose() with "
-    "rtol 1e-5, 'equal value' regions for nearly-equal floats are outside the statement and not generated; no NaN",
+    "values are small integers (0,1,2), also as float64, and the float alphabets {-1.5, 0.0, 2.5} and {-2.0, -1.0} "
+    "(float64 and float32; exactly representable, pairwise >= 1 apart): the float comparison of polygonize is an "
+    "isclose() with rtol 1e-5, 'equal value' regions for nearly-equal floats are outside the statement and not "
+    "generated; no NaN",
     "8-connectivity rings may touch themselves at a corner (diagonal pinch); this is accepted, the statement is "
     "asserted through the even-odd rule on cell centres and the signed areas, not through ring simplicity",
     "numpy backend, return_type='numpy', C-contiguous inputs, DataArray without coordinates (polygonize ignores "
@@ -53,8 +55,11 @@ _TF = {}
 def transforms(shape):
     if shape not in _TF:
         h, w = shape
-        _TF[shape] = [("scale_shift", np.array([2.0, 0.0, 10.0, 0.0, 0.5, -3.0])),
+        # simplest first: identity, offsets only (unit scale, no shear), one flipped axis, scale + offset, everything
+        _TF[shape] = [("identity", np.array([1.0, 0.0, 0.0, 0.0, 1.0, 0.0])),
+                      ("translate", np.array([1.0, 0.0, 5.0, 0.0, 1.0, -2.25])),
                       ("flip_y", np.array([1.0, 0.0, 0.0, 0.0, -1.0, float(h)])),
+                      ("scale_shift", np.array([2.0, 0.0, 10.0, 0.0, 0.5, -3.0])),
                       ("general", np.array([1.0, 0.5, -2.0, -0.25, -1.5, 7.0]))]
     return _TF[shape]
 
@@ -79,6 +84,9 @@ def named_masks(shape):
 
 LINES = lambda n: [(1, 1)] + [s for k in range(2, n + 1) for s in ((1, k), (k, 1))]  # noqa: E731
 DT3 = ("int64", "int32", "float64")
+FLT = ("float64", "float32")
+NEG3 = (-1.5, 0.0, 2.5)          # float alphabets with negative letters (dyadic, pairwise far apart)
+NEG2 = (-2.0, -1.0)
 
 # (label, shapes, alphabet, dtypes, mask family, mask dtype)
 SPEC = {
@@ -92,6 +100,11 @@ SPEC = {
         ("3x3_2l", [(3, 3)], (0, 1), ("int64", "float64"), "cellstates", "bool"),
         ("4x4_2l", [(4, 4)], (0, 1), ("int64",), "named", "bool"),
         ("3x5_2l", [(3, 5)], (0, 1), ("int64",), "named", "bool"),
+        # float rasters with negative values (the float comparison is relative to the magnitude of a value)
+        ("3x3_neg3l", [(3, 3)], NEG3, FLT, "none", "bool"),
+        ("3x3_neg2l", [(3, 3)], NEG2, FLT, "none", "bool"),
+        ("lines8_neg2l", LINES(8), NEG2, FLT, "none", "bool"),
+        ("small6_neg2l", [(2, 2), (2, 3), (3, 2)], NEG2, ("float64",), "all", "bool"),
     ],
 }
 SPEC["thorough"] = SPEC["quick"] + [
@@ -133,7 +146,7 @@ class PolySpace(Space):
 
     def __init__(self, label, shapes, alphabet, dtype, family, mask_dtype):
         self.alphabet, self.dtype, self.family, self.mask_dtype = tuple(alphabet), dtype, family, mask_dtype
-        short = {"int64": "i8", "int32": "i4", "float64": "f8"}
+        short = {"int64": "i8", "int32": "i4", "float64": "f8", "float32": "f4"}
         self.name = "poly_%s_%s_%s" % (label, short[dtype], {"none": "nomask", "all": "allmasks"}.get(family, family))
         if mask_dtype != "bool":
             self.name += "_m" + short[mask_dtype]
@@ -156,6 +169,9 @@ class PolySpace(Space):
         self.sum = SumSpace([(i, p[2]) for i, p in enumerate(self.parts)])
         self.size = self.sum.size
         self.weight = max(s[0] * s[1] for s in shapes)
+        if dtype == "float32":
+            # few shards: every worker that runs a float32 shard compiles the float32 kernels first (several seconds)
+            self.grain = self.size if self.size <= 5000 else -(-self.size // 3)
 
     def setup(self):
         import xarray as xr
